@@ -2,7 +2,7 @@
    `jumps_land`: in every function of the tree every Jump / JumpIfFalse / JumpIfStopIter / Loop lands on an
    instruction boundary. *)
 From Coq Require Import Strings.Byte Strings.String.
-From Coq Require Import List NArith ZArith Bool Arith Lia.
+From Coq Require Import List NArith ZArith Bool Arith Lia Permutation.
 From YV Require Import Show Utf8 Num Ast Bytecode ParseLoc FullCompile FullCompileProofs FullCompileWF FullCompileWFJ.
 Import ListNotations.
 Local Open Scope nat_scope.
@@ -19,11 +19,24 @@ Ltac rem p l :=
   | p :: ?t => t
   | ?q :: ?t => let t' := rem p t in constr:(q :: t')
   end.
+(* the part of l before the first occurrence of p *)
+Ltac pre_of p l :=
+  lazymatch l with
+  | p :: ?t => constr:(@nil nat)
+  | ?q :: ?t => let t' := pre_of p t in constr:(q :: t')
+  end.
+Ltac post_of p l :=
+  lazymatch l with
+  | p :: ?t => t
+  | ?q :: ?t => post_of p t
+  end.
+(* Permutation X (p :: X') where X' is X without its first p (X' may be an evar) *)
 Ltac remt :=
   lazymatch goal with
-  | |- incl ?X (?p :: ?X') =>
-    first [ is_evar X'; let r := rem p X in unify X' r | idtac ];
-    let z := fresh in let Hz := fresh in intros z Hz; simpl in *; tauto
+  | |- Permutation ?X (?p :: ?X') =>
+    let l1 := pre_of p X in let l2 := post_of p X in
+    first [ is_evar X'; let r := eval cbn [app] in (l1 ++ l2) in unify X' r | idtac ];
+    apply Permutation_sym; exact (Permutation_middle l1 l2 p)
   end.
 
 Ltac qjsolve := solve [ auto using qj_cur, qj_cget, qj_code_len, qj_in_class, qj_set_line, qj_set_classes,
@@ -49,7 +62,7 @@ Ltac leaf :=
       eapply TJ_emit_variable_op; [ infs | first [ left; reflexivity | right; reflexivity ] ]
   | |- TJ _ _ _ (emit_jump _ _) _ _ _ => apply TJ_emit_jump; reflexivity
   | |- TJ _ _ _ (patch_jump _) _ _ _ => eapply TJ_patch_jump; [ infs | remt ]
-  | |- TJ _ _ _ (patch_offset_at _ _) _ _ _ => eapply TJ_patch_offset_at; [ infs | first [ left; lia | right; lia ] ]
+  | |- TJ _ _ _ (patch_offset_at (_ + 2) _) _ _ _ => eapply TJ_patch_h2; [ infs | infs | remt ]
   | |- TJ _ _ _ (emit_loop _ _) _ _ _ =>
       first [ apply TJ_emit_loop; infs | eapply TJ_emit_loop_cont; [ infs | eassumption ] ]
   | |- TJ _ _ _ code_len _ _ _ => apply TJ_code_len
@@ -92,6 +105,8 @@ Ltac step :=
       lazymatch f with context [k_loops] => eapply TJ_bind; [ apply TJ_cur_loops | intros ? ] end
   | |- TJ _ _ _ (cbind (emit_op OpJumpFinally _) (fun _ => emit_op OpReturn _)) _ _ _ => leafp
   | |- TJ _ _ _ (cbind (emit_op OpPushExcHandler _) _) _ _ _ => apply TJ_push_handler; intros ?
+  | |- TJ _ _ _ (cbind (patch_offset_at ?hp (?hp + 4)) (fun _ => cbind code_len _)) _ _ _ =>
+      eapply TJ_patch_h1_k; [ infs | remt | infs | intros ? ]
   | |- TJ _ _ _ (cbind (emit_op16 _ _ _) (fun _ => emit_byte _ _)) _ _ _ => leafp
   | |- TJ _ _ _ (cbind (emit_op16 _ _ _) (fun _ => cbind (emit_byte _ _) _)) _ _ _ =>
       apply TJ_emit_op16_8_k; [ reflexivity | infs | ]
@@ -139,7 +154,7 @@ Proof.
   cbn [fst] in Hc3, Hj3.
   assert (Hg : jgood_func (func_of_comp (s_cur (pushes s1 ris (snd p))))).
   { destruct Hc3. unfold func_of_comp. econstructor; eauto. rewrite Nat2N.id. auto.
-    eapply jinv_final_strict; eauto. apply (j_jf _ _ _ _ _ Hj3). exists (fst G1 ++ r0). first [rewrite Hr0, app_assoc | rewrite app_assoc]; reflexivity.
+    eapply jinv_final_strict; eauto. eapply jinv_final_handlers; eauto. apply (j_jf _ _ _ _ _ Hj3). exists (fst G1 ++ r0). first [rewrite Hr0, app_assoc | rewrite app_assoc]; reflexivity.
     apply (j_consts _ _ _ _ _ Hj3). }
   destruct (s_outer (pushes s1 ris (snd p))); inversion E; subst; exact Hg.
 Qed.
@@ -172,11 +187,11 @@ Theorem ends_in_return (p : lprogram) (f g : func) :
     f_code g = flat is_ /\ Forall (iok (f_consts g) (N.to_nat (f_upvalues g))) is_ /\ jumps_in is_ /\
     (exists is0, is_ = is0 ++ [(OpReturn, [])]) /\
     (forall k i, nth_error is_ k = Some i -> fst i <> OpReturn -> sbnd is_ (pos is_ (S k))) /\
-    jf_ok is_.
+    jf_ok is_ /\ handlers_in is_.
 Proof.
   intros H Hg. apply compile_jgood in H. apply (jgood_subfunc _ _ Hg) in H.
-  destruct H as [a u n code ks lines g' Hc Hi Hj Hjf [g0 Hg0] Hks]. subst g' code. simpl.
-  eexists. split; [reflexivity|]. split; auto. split; auto. split; eauto. split; auto.
+  destruct H as [a u n code ks lines g' Hc Hi Hj Hh Hjf [g0 Hg0] Hks]. subst g' code. simpl.
+  eexists. split; [reflexivity|]. split; auto. split; auto. split; eauto. split; [|split; auto].
   intros k i Hk Hne. exists (S k). split; auto.
   apply nth_error_snoc in Hk. destruct Hk as [[Hlt _]|[_ ->]].
   - rewrite app_length. cbn [length]. rewrite Nat.add_1_r. apply (proj1 (Nat.succ_lt_mono k _)). exact Hlt.
@@ -252,3 +267,31 @@ Proof.
     rewrite (decode_at_boundary P F g is_ pre _ post HM Hlt Hc Hok E). reflexivity.
 Qed.
 Print Assumptions jumps_decode.
+
+(* the two targets of every PushExcHandler (catch_pc = next + a, finally_pc = next + a + b, as Skeleton.step computes them)
+   are starts of instructions: Bytecode.decode succeeds there *)
+Theorem handlers_decode (p : lprogram) (f g : func) P F :
+  compile_program p = COk f -> subfunc g f -> models P F g ->
+  exists is_ : list ainstr,
+    f_code g = flat is_ /\
+    forall pre a b c d post, is_ = pre ++ (OpPushExcHandler, [a; b; c; d]) :: post ->
+      let q := length (flat pre) in
+      decode P F (N.of_nat q) = Some (mkInstr OpPushExcHandler (u16 a b) (u16 c d) [], N.of_nat (q + 5)) /\
+      (exists i nx, decode P F (N.of_nat (q + 5) + u16 a b)%N = Some (i, nx)) /\
+      (exists i nx, decode P F (N.of_nat (q + 5) + u16 a b + u16 c d)%N = Some (i, nx)).
+Proof.
+  intros H Hg HM. pose proof (code_bytes_in_range _ _ _ H Hg) as Hlt.
+  destruct (ends_in_return _ _ _ H Hg) as (is_ & Hc & Hok & _ & _ & _ & _ & Hh).
+  exists is_. split; auto. intros pre a b c d post E q. subst q.
+  assert (D : forall n, sbnd is_ n -> exists i nx, decode P F (N.of_nat n) = Some (i, nx)).
+  { intros n Hn. apply sbnd_split in Hn. destruct Hn as (pre' & i & post' & E' & <-).
+    eexists _, _. eapply decode_at_boundary; eauto. }
+  assert (Hn : nth_error is_ (length pre) = Some (OpPushExcHandler, [a; b; c; d])).
+  { rewrite E. rewrite nth_error_app2, Nat.sub_diag by lia. reflexivity. }
+  destruct (Hh _ _ _ _ _ Hn) as [T1 T2]. rewrite E in T1 at 2. rewrite E in T2 at 2. rewrite pos_split in T1, T2.
+  split; [|split].
+  - rewrite (decode_at_boundary P F g is_ pre _ post HM Hlt Hc Hok E). reflexivity.
+  - destruct (D _ T1) as (i & nx & Hd). exists i, nx. rewrite <- Hd. f_equal. lia.
+  - destruct (D _ T2) as (i & nx & Hd). exists i, nx. rewrite <- Hd. f_equal. lia.
+Qed.
+Print Assumptions handlers_decode.
